@@ -317,7 +317,7 @@ theorem std_funcOf_isSome (beh : Nat → Nat → List PVal → BehOut) (k : Nat)
 
 /-- the outcome of `Call` is success, a body's error or `badOracle`, once `reachTarget` is known never to
 report an unsatisfied argument and the requirement edges are known to survive pruning -/
-theorem finish (H : WalkPanic.Hyps e b funcs target) (beh : Nat → Nat → List PVal → BehOut)
+theorem finish' (H : WalkPanic.Hyps e b funcs target) (beh : Nat → Nat → List PVal → BehOut)
     (hsat : (callGraph {} e b funcs target false none).unsat = [])
     (hreqs : ∀ k f, (C01.stdCtx e b funcs target beh).funcOf k = some f →
         (∃ u, (C01.stdCtx e b funcs target beh).g.hasEdge (.func k) u = true) →
@@ -325,14 +325,15 @@ theorem finish (H : WalkPanic.Hyps e b funcs target) (beh : Nat → Nat → List
     (fuel : Nat)
     (hfuel : ((callGraph {} e b funcs target false none).cg.g.verts.filter Vtx.isFunc).length + 1 ≤ fuel)
     (memo : List (Nat × Memo)) (orc : List OrcItem)
-    (hitems : ∀ it ∈ orc, WalkPanic.ItemOK (C01.stdCtx e b funcs target beh).g it)
+    (hitems : ∀ it ∈ orc, (C01.stdCtx e b funcs target beh).hopCopies = true ∨
+      WalkPanic.ItemOK (C01.stdCtx e b funcs target beh).g it)
     (hnu : ∀ a, (reach (C01.stdCtx e b funcs target beh) false fuel [] (.func target.key)
       (initSt (callGraph {} e b funcs target false none).cg memo orc)).1 ≠ .error (.unsat a)) :
     let r := callWith (C01.stdCtx e b funcs target beh) (callGraph {} e b funcs target false none) target fuel
               (initSt (callGraph {} e b funcs target false none).cg memo orc)
     (∃ res, r.1 = .ok res) ∨ (∃ ε, r.1 = .convErr ε) ∨ (∃ ε res, r.1 = .targetErr ε res) ∨ (∃ w, r.1 = .badOracle w) := by
   intro r
-  obtain ⟨c1, c2, c3⟩ := WalkPanic.core_items H beh True (fun _ _ => hreqs) fuel memo orc hitems
+  obtain ⟨c1, c2, c3⟩ := WalkPanic.core_items' H beh True (fun _ _ => hreqs) fuel memo orc hitems
   obtain ⟨m, rfl⟩ : ∃ m, fuel = m + 1 := ⟨fuel - 1, by omega⟩
   apply outcome_cases
   · intro a fg h
@@ -354,6 +355,24 @@ theorem finish (H : WalkPanic.Hyps e b funcs target) (beh : Nat → Nat → List
   · refine callWith_no_fuel _ rfl (std_wf beh) _ target rfl m ?_ _
     rw [CompleteAcyclic.stdCtx_g_eq]
     omega
+
+/-- the outcome of `Call` is success, a body's error or `badOracle`, once `reachTarget` is known never to
+report an unsatisfied argument and the requirement edges are known to survive pruning -/
+theorem finish (H : WalkPanic.Hyps e b funcs target) (beh : Nat → Nat → List PVal → BehOut)
+    (hsat : (callGraph {} e b funcs target false none).unsat = [])
+    (hreqs : ∀ k f, (C01.stdCtx e b funcs target beh).funcOf k = some f →
+        (∃ u, (C01.stdCtx e b funcs target beh).g.hasEdge (.func k) u = true) →
+        ∀ v ∈ f.input.values, v.lab.vertex ∈ (C01.stdCtx e b funcs target beh).g.outs (.func k))
+    (fuel : Nat)
+    (hfuel : ((callGraph {} e b funcs target false none).cg.g.verts.filter Vtx.isFunc).length + 1 ≤ fuel)
+    (memo : List (Nat × Memo)) (orc : List OrcItem)
+    (hitems : ∀ it ∈ orc, WalkPanic.ItemOK (C01.stdCtx e b funcs target beh).g it)
+    (hnu : ∀ a, (reach (C01.stdCtx e b funcs target beh) false fuel [] (.func target.key)
+      (initSt (callGraph {} e b funcs target false none).cg memo orc)).1 ≠ .error (.unsat a)) :
+    let r := callWith (C01.stdCtx e b funcs target beh) (callGraph {} e b funcs target false none) target fuel
+              (initSt (callGraph {} e b funcs target false none).cg memo orc)
+    (∃ res, r.1 = .ok res) ∨ (∃ ε, r.1 = .convErr ε) ∨ (∃ ε res, r.1 = .targetErr ε res) ∨ (∃ w, r.1 = .badOracle w) :=
+  finish' H beh hsat hreqs fuel hfuel memo orc (fun it hit => Or.inr (hitems it hit)) hnu
 
 /-- **clause (b), full label language**: acyclic pruned graph, every surviving converter keeps its parameter
 vertices, legal oracle -/
